@@ -194,6 +194,10 @@ def run(rep, tier):
                                    'measures of this disjunct: %s\npath of the offending disjunct:\n  %s' % (
                                        {k: v for k, v in p['m'].items() if v == 'strict'}, '\n  '.join(p['path'])))
             rep.coverage.setdefault('loops', {})[tag] = {'%s@%s' % (k[0], v): len(seen.get(k, ())) for k, v in loops.items()}
+            # "a failed lookup re-reads at most the one name it overshot": the rewind is exactly the current iteration's bytes
+            if not os.environ.get('C16_ENTRIES'):
+                from props.c07 import rewind_clause
+                rep.coverage.setdefault('rewind_events', {})[tag] = rewind_clause(rep, mod, tag, 'C16')
             rep.coverage.setdefault('entries', []).extend('%s[%s] %s' % (r['fn'], r['label'], tag) for r in results)
     rep.coverage.update({
         'rule': 'for each natural loop and each calling context: every back-edge disjunct has a common ranking place (strict decrease of an '
